@@ -1223,9 +1223,17 @@ func (r *dagRun) secondRun(g *dag.Graph, runErr error, pre string) []string {
 	if r.c.Serial {
 		limit = 1
 	}
-	var now, max, ran int32
+	var now, max, ran, early int32
+	// the first three new tasks form a chain x0 <- x1 <- x2 (a graph extended after a Run gets new edges too)
+	finished := make([]int32, m+3)
+	tasks := make([]*dag.Task, m+3)
 	for i := 0; i < m+3; i++ {
-		g.AddTask(dag.NewTask(fmt.Sprintf("x%d", i), func(ctx context.Context, opt *getoptions.GetOpt, args []string) error {
+		i := i
+		tasks[i] = dag.NewTask(fmt.Sprintf("x%d", i), func(ctx context.Context, opt *getoptions.GetOpt, args []string) error {
+			if (i == 1 || i == 2) && atomic.LoadInt32(&finished[i-1]) == 0 {
+				atomic.AddInt32(&early, 1)
+			}
+			defer atomic.StoreInt32(&finished[i], 1)
 			n := atomic.AddInt32(&now, 1)
 			for {
 				mx := atomic.LoadInt32(&max)
@@ -1237,9 +1245,17 @@ func (r *dagRun) secondRun(g *dag.Graph, runErr error, pre string) []string {
 			atomic.AddInt32(&now, -1)
 			atomic.AddInt32(&ran, 1)
 			return nil
-		}))
+		})
 	}
+	for i := m + 2; i >= 3; i-- {
+		g.AddTask(tasks[i])
+	}
+	g.TaskDependsOn(tasks[2], tasks[1])
+	g.TaskDependsOn(tasks[1], tasks[0])
 	e3, ok := run()
+	if early > 0 {
+		v = append(v, fmt.Sprintf("Run of the extended graph: %d task functions entered before the task they depend on had returned", early))
+	}
 	switch {
 	case !ok:
 		v = append(v, "Run of the extended graph does not return")
